@@ -18,6 +18,29 @@ func Dump(pattern string, names []string) {
 		for _, n := range names {
 			if funcKeyName(f) == n {
 				fmt.Println("##", key)
+				if os.Getenv("GOVC_LOOPS") != "" {
+					e := w.newEnc(f, nil, "")
+					e.computeLoops()
+					for _, li := range e.loopList {
+						pos := ""
+						for _, in := range li.header.Instrs {
+							if in.Pos().IsValid() {
+								pos = w.Prog.Fset.Position(in.Pos()).String()
+								break
+							}
+						}
+						if pos == "" && len(li.header.Succs) > 0 {
+							for _, in := range li.header.Succs[0].Instrs {
+								if in.Pos().IsValid() {
+									pos = w.Prog.Fset.Position(in.Pos()).String()
+									break
+								}
+							}
+						}
+						fmt.Printf("loop %d: header b%d (%s) %s\n", li.ordinal, li.header.Index, li.header.Comment, pos)
+					}
+					continue
+				}
 				f.WriteTo(os.Stdout)
 			}
 		}
